@@ -361,7 +361,7 @@ func init() {
 				sc := sc
 				ss = append(ss, &Suite{Name: "c10/concurrent/" + sc.name, Bound: bound, Weight: 4, Run: sc.run})
 			}
-			return ss
+			return append(ss, c10RaceSuites(tier)...)
 		},
 	})
 }
